@@ -8,6 +8,8 @@ import Driver.C11
 import Driver.C01
 import Driver.C15
 import Driver.C10
+import Driver.C14
+import Driver.C09
 
 def main (args : List String) : IO UInt32 := do
   let stdin ← IO.getStdin
@@ -22,4 +24,6 @@ def main (args : List String) : IO UInt32 := do
   | ["c01"] => C01Val.main stdin
   | ["c15"] => C15Val.main stdin
   | ["c10"] => C10Val.main stdin
+  | ["c14"] => C14Val.main stdin
+  | ["c09"] => C09Val.main stdin
   | _ => do IO.eprintln "usage: midriver <trval|entry|...>"; return 2
